@@ -208,7 +208,9 @@ void setup(Handler& ah, Dest& d, int cfg, int part /* 0 = all, 1/2 = halves for 
       if (pa_opt & 8) k->setUniqueData(true);
       if (pa_opt & 256) k->setPairFormat("=||");          // pair "|key=value|"
       if (pa_opt & 512) k->setPairFormat(":{}");          // pair "{key:value}"
-      ah.addArgument("t,tuple", DEST_VAR(d.tp), "tuple of three ints");
+      if (pa_opt & 16384) k->addCheck(maxLength(6));      // every single pair is checked (at most 6 characters)
+      auto* tpa = ah.addArgument("t,tuple", DEST_VAR(d.tp), "tuple of three ints");
+      if (pa_opt & 32768) tpa->setCardinality();         // the cardinality check of the tuple is removed
       ah.addArgument("f,flag", DEST_VAR(d.f), "flag");
    } else if (cfg == 14) {
       // the other standard containers (deque and list with previous content 7), and a vector whose elements are range-checked
@@ -807,6 +809,7 @@ HX void hx_pa_argfile(uint64_t cfg, uint64_t mode) {
    if (line_open) content += '\n';
    if (mode & 1) { std::vector<std::string> c2(cmd.begin() + 2, cmd.end()); c2.push_back("--arg-file"); c2.push_back("/tmp/vs_home/args.txt"); cmd = c2; }     // the file is named last
    vs_file("/tmp/vs_home/args.txt", content.data(), content.size());
+   if (mode & 2) { static const char other[] = "-g\n--arg-file /tmp/vs_home/args.txt\n"; vs_file("/tmp/vs_home/args2.txt", other, sizeof other - 1); }   // a second file that names the first one
    Argv av(cmd);
    int rc = guarded([&] { ah.evalArguments(av.argc(), av.argv()); });
    judge(t, rc, d);
